@@ -132,8 +132,84 @@ func init() {
 	})
 }
 
+// c12SiblingCwd: the target lies outside the working directory, in a sibling directory whose name begins with the working
+// directory's name (zap / zaptest, api / apiv2). The file that the --diff header and the descriptions name must be the file
+// the change applied to: applying the diff from the working directory gives the tree that the default mode writes.
+func c12SiblingCwd(ctx *core.Ctx, res *core.Result, idx int) {
+	r := ctx.Rand("c12sib", idx)
+	pair := [][2]string{{"zap", "zaptest"}, {"foo", "foo_test"}, {"api", "apiv2"}, {"a", "ab"}, {"pkg", "pkg-gen"}, {"x", "x.d"}}[r.Intn(6)]
+	base, _ := os.MkdirTemp(ctx.Tmp, "c12sib")
+	defer os.RemoveAll(base)
+	cwd := filepath.Join(base, pair[0])
+	tail := strings.TrimPrefix(pair[1], pair[0])
+	tail = strings.TrimLeft(tail, "_-.")
+	if tail == "" {
+		tail = "t"
+	}
+	src := "package p\n\nfunc f() int {\n\treturn bump(1)\n}\n"
+	for _, d := range []string{cwd, filepath.Join(base, pair[1]), filepath.Join(cwd, tail), filepath.Join(cwd, strings.TrimPrefix(pair[1], pair[0]))} {
+		os.MkdirAll(d, 0o755)
+	}
+	target := filepath.Join(base, pair[1], "x.go")
+	decoys := []string{filepath.Join(cwd, tail, "x.go"), filepath.Join(cwd, strings.TrimPrefix(pair[1], pair[0]), "x.go"), filepath.Join(cwd, "x.go")}
+	os.WriteFile(target, []byte(src), 0o644)
+	for _, d := range decoys {
+		os.WriteFile(d, []byte(src), 0o644)
+	}
+	pt := "# bump it\n@@\nvar x expression\n@@\n-bump(x)\n+bump(x + 1)\n"
+	os.WriteFile(filepath.Join(base, "p.patch"), []byte(pt), 0o644)
+	arg := []string{"../" + pair[1] + "/x.go", "../" + pair[1], "../" + pair[1] + "/..."}[r.Intn(3)]
+	rep := map[string]string{"p.patch": pt, "args.txt": "cwd " + pair[0] + ", argument " + arg}
+	resolves := func(name string) bool {
+		if !filepath.IsAbs(name) {
+			name = filepath.Join(cwd, name)
+		}
+		return filepath.Clean(name) == target
+	}
+	for _, mode := range []string{"--diff", "--print-only"} {
+		cr := ctx.RunCLI(core.CLIOpts{Dir: cwd, Args: []string{"-p", "../p.patch", mode, arg}})
+		res.Evals++
+		res.Ob("sibling-cwd-runs", 1)
+		rep["stdout.txt"], rep["stderr.txt"] = string(cr.Stdout), string(cr.Stderr)
+		if cc := cr.CrashClass(); cc != "" || cr.Exit != 0 {
+			res.Violate("C12/nonzero-exit/sibling-directory", fmt.Sprintf("[%s] exit %d: %s", mode, cr.Exit, core.Trunc(string(cr.Stderr), 300)), rep)
+			return
+		}
+		// the description names the file the change applied to
+		for _, l := range strings.Split(strings.TrimSpace(string(cr.Stderr)), "\n") {
+			if i := strings.LastIndex(l, ":bump it"); i >= 0 {
+				if !resolves(l[:i]) {
+					res.Violate("C12/description-for-another-file", fmt.Sprintf("[%s, cwd %s, argument %s] the description is reported for %q, which is not the file the change applied to", mode, pair[0], arg, l[:i]), rep)
+					return
+				}
+			} else if strings.TrimSpace(l) != "" {
+				res.Violate("C12/unexpected-stderr/sibling-directory", l, rep)
+				return
+			}
+		}
+		if mode == "--diff" {
+			for _, l := range strings.Split(string(cr.Stdout), "\n") {
+				for _, pre := range []string{"--- ", "+++ "} {
+					if strings.HasPrefix(l, pre) && !resolves(strings.TrimPrefix(l, pre)) {
+						res.Violate("C12/diff-names-another-file", fmt.Sprintf("[cwd %s, argument %s] the diff is headed %q, which is not the file the change applied to", pair[0], arg, l), rep)
+						return
+					}
+				}
+			}
+			if !strings.Contains(string(cr.Stdout), "+\treturn bump(1 + 1)") {
+				res.Violate("C12/diff-missing/sibling-directory", "no hunk for the target", rep)
+				return
+			}
+		}
+	}
+	res.Sig("sibling-cwd", pair[0], arg)
+}
+
 func runC12(ctx *core.Ctx, idx int) *core.Result {
 	res := &core.Result{}
+	if idx%10 == 3 {
+		c12SiblingCwd(ctx, res, idx)
+	}
 	r := ctx.Rand("c12", idx)
 	g := gen.NewG(r)
 	g.Comment = r.Intn(2) == 0
